@@ -201,12 +201,16 @@ CHECKS = {
         "which the kernels are written (+,-,*,/,neg,exp,log,tanh) over the SAME dual-number arithmetic the executable model uses yields "
         "the value and HasDerivAt-derivative wherever defined; the tangent is linear in the seed; dual division returns the derivative "
         "of the implicit solve (A x' = b' - A' x); the derivative w.r.t. a parameter shared by a group is the sum of the per-row "
-        "partials (any group, any n). Measured on every run: <jax.grad, d> on the real code (all solvers x backends x checkpoint "
+        "partials (any group, any n). For the re-translated rate functions of the built-in channels (Props/C05_Kernels.lean: HH m/h/n, Na m/h, K n, "
+        "CaL q/r, Km p, CaT u as far as listed in the audit) the link to the code is a theorem: each GENERATED kernel equals a term of the "
+        "language on the region where save_exp does not clip, over the reals and over the dual numbers, hence running the generated kernel "
+        "on dual numbers yields its HasDerivAt-derivative in the voltage (away from the removable singularities). Measured on every run: <jax.grad, d> on the real code (all solvers x backends x checkpoint "
         "layouts, exact and padded) vs the forward-mode derivative of the Lean cable model over dual numbers (agree to ~1e-12) and vs "
         "Richardson-extrapolated central differences; active models with make_trainable on channel, synapse, geometry and "
         "initial-state keys incl. groups of unequal size: jax.grad vs finite differences.",
-   note=TRUST + "JAX AD, jax.checkpoint and the custom VJP of spsolve are trusted runtime; the reflection of each generated kernel into the "
-        "expression language is not generated (the theorem is about the language, the dual run about the cable model). Partial."),
+   note=TRUST + "JAX AD, jax.checkpoint and the custom VJP of spsolve are trusted runtime; the reflection into the expression language is proved for the rate functions "
+        "listed in the audit (hand-written terms, rfl against the regenerated kernels), not for update_states / compute_current and not for the "
+        "whole simulation; losses may read voltages and recorded membrane / synaptic currents. Partial."),
  "C16": dict(cat="proof", ref="DESIGN.md §4 C16",
    technique="executable Lean model of the SWC reader (bit-exact with the implementation) + independent section Spec evaluated by the Lean driver + combinatorial/interpolation theorems",
    text="Model.Swc mirrors the reader (two-loop branch splitting, long-branch splitting, stable sort, parents, path lengths, radius "
